@@ -4,7 +4,7 @@ the failing-input search.  It is not part of the trusted base of any theorem: th
 that the implementation is compared with is the OCaml extraction of the Coq definitions."""
 
 PLAIN, FIXED, VARYING = 0, 1, 2
-TBLOB, TUINT, TSINT, TU8, TS8, TBYTE, TTRK = range(7)
+TBLOB, TUINT, TSINT, TU8, TS8, TBYTE, TTRK, TTRKC = range(8)
 
 
 class Param:
@@ -17,7 +17,7 @@ class Param:
         return (self.kind, self.size, self.align, self.ty)
 
     def __repr__(self):
-        return "%s%s%d@%d" % ("PFV"[self.kind], "BUSusyT"[self.ty], self.size, self.align)
+        return "%s%s%d@%d" % ("PFV"[self.kind], "BUSusyTC"[self.ty], self.size, self.align)
 
 
 def align_up(x, a):
@@ -161,8 +161,16 @@ def nfixed(L):
     return sum(1 for p in L if p.kind == FIXED)
 
 
+def ntc(p):
+    return p.ty in (TTRK, TTRKC)
+
+
+def ntd(p):
+    return p.ty == TTRK
+
+
 def all_triv(L):
-    return all(p.ty != TTRK for p in L)
+    return all(not ntc(p) and not ntd(p) for p in L)
 
 
 def wf(L):
